@@ -39,11 +39,6 @@ theorem fixedOpenNew_pre (s : FS) (d : Nat) : runPre s (fixedOpenNew d) := by
     subst hu
     simp
 
-/-- the pointer switch of `RecoverFromSnapshot` (tests/diskkv.go:750-811): new directory made durable, pointer staged,
-    synced, published, published durably, then the old directory removed -/
-def recoverSeq (d old : Nat) : List Prim :=
-  [.mkdir d, .syncDir, .createUpd, .writeUpd d, .syncUpd, .renameUpd, .syncDir, .removeDir old, .syncDir]
-
 /-- it meets every precondition from any state, provided the new directory is not the old one -/
 theorem recoverSeq_pre (s : FS) (d old : Nat) (hne : d ≠ old) : runPre s (recoverSeq d old) := by
   unfold recoverSeq runPre
@@ -80,4 +75,49 @@ theorem pointer_protocol_crash_safe (s : FS) (h : Inv s) (d old : Nat) (hne : d 
 #print axioms pointer_protocol_crash_safe
 #print axioms crash_anywhere_ok
 #print axioms fixedOpenNew_pre
+end DiskKV
+
+namespace DiskKV
+/-- the invariant survives a crash, so everything above applies again to a crash during the recovery from a crash
+    (double crashes, and so on) -/
+theorem crash_inv (s : FS) (h : Inv s) : Inv (crash s) := by
+  refine ⟨?_, ?_, ?_, ?_, ?_⟩
+  · intro n hn
+    obtain ⟨d, h1, h2⟩ := h.curSOK n hn
+    exact ⟨d, h1, h1, h2, h2⟩
+  · intro n hn
+    exact h.curSOK n hn
+  · exact ⟨fun n hn => h.fresh.2.1 n hn, fun n hn => h.fresh.2.1 n hn, fun n hn => h.updSOK.1 n hn⟩
+  · intro u hu
+    exact ⟨h.updSOK.2 u hu, h.updSOK.2 u hu⟩
+  · exact h.updSOK
+
+/-- the empty node directory (before the first `Open`) satisfies the invariant -/
+theorem inv_init : Inv {} := by
+  refine ⟨?_, ?_, ⟨?_, ?_, ?_⟩, ?_, ⟨?_, ?_⟩⟩ <;> intro n hn <;> cases hn
+
+/-- reachable states: any interleaving of protocol runs (first open, snapshot recoveries to fresh directories,
+    clean-ups at reopen) and crashes, starting from the empty directory -/
+inductive Reach : FS → Prop
+  | init : Reach {}
+  | openNew (s : FS) (d k : Nat) : Reach s → Reach (((fixedOpenNew d).take k).foldl step s)
+  | recover (s : FS) (d old k : Nat) : Reach s → d ≠ old → Reach (((recoverSeq d old).take k).foldl step s)
+  | cleanup (s : FS) (k : Nat) : Reach s → Reach ((reopenSeq.take k).foldl step s)
+  | crash (s : FS) : Reach s → Reach (DiskKV.crash s)
+
+theorem reach_inv (s : FS) (h : Reach s) : Inv s := by
+  induction h with
+  | init => exact inv_init
+  | openNew s d k _ ih => exact run_inv _ s ih (fixedOpenNew_pre s d) k
+  | recover s d old k _ hne ih => exact run_inv _ s ih (recoverSeq_pre s d old hne) k
+  | cleanup s k _ ih => exact run_inv _ s ih (by simp [reopenSeq, runPre, Pre]) k
+  | crash s _ ih => exact crash_inv s ih
+
+/-- **C16, pointer protocol, every crash point, any number of crashes**: in every state reachable by prefixes of
+    protocol runs and crashes in any order — i.e. a crash at any point of a first open, of a snapshot recovery or of a
+    reopen's clean-up, again during the recovery from that crash, and so on — the next `Open` starts a new run or
+    reopens a directory that exists. It never panics. -/
+theorem open_never_panics (s : FS) (h : Reach s) :
+    openAfter (crash s) = .newRun ∨ ∃ d, openAfter (crash s) = .reopen d :=
+  open_after_crash_ok s (reach_inv s h)
 end DiskKV
